@@ -112,6 +112,12 @@ Definition c17_holds (expected : json) (in_doc reduced : observed) : bool :=
 Definition c17_unknown_name_holds (o : observed) : bool :=
   negb (Nat.eqb (ob_class o) 0) && match ob_calls o with [] => true | _ => false end.
 
+(* ... also when the same plan list is looked up again and again (the plan cache hands one list to
+   every request): each lookup answers as a freshly planned request for that name does *)
+Definition c17_reuse_holds (pairs : list (observed * observed)) : bool :=
+  forallb (fun p => Nat.eqb (ob_class (fst p)) (ob_class (snd p)) &&
+                    (negb (Nat.eqb (ob_class (fst p)) 0) || same_data (ob_data (fst p)) (ob_data (snd p)))) pairs.
+
 (* C07: no panic; the error list has one entry per failed call and none otherwise; the data is the
    reference data minus what lies beneath failed calls (never a foreign or misplaced value) *)
 Definition c07_holds (expected : json) (nfaults : nat) (o : observed) : bool :=
